@@ -422,6 +422,11 @@ func c18Fixed(c *Ctx) {
 		{name: "call-entry/not-a-method", files: map[string]string{"main.zn": "注：a\n注：b\n令算 = 1\n令子 = 1\n（算：1、2）\n"}, accept: [][]fr{{{M, 5}}}},
 		{name: "method-entry/input-name-is-no-identifier", files: map[string]string{"main.zn": "注：a\n令子 = 1\n如何算？\n\t输入5x\n\t输出 1\n令丑 = 1\n（算：1）\n"}, accept: [][]fr{{{M, 7}, {M, 4}}}},
 		{name: "method-entry/input-name-is-no-identifier-in-type-method", files: map[string]string{"main.zn": "定义狗：\n\t其名 = 1\n\t如何叫？\n\n\t\t输入数、7y\n\t\t输出 1\n令D = （新建狗）\n令丑 = 1\n以D（叫：1、2）\n"}, accept: [][]fr{{{M, 9}, {M, 5}}}},
+		{name: "while-cond/fault-after-a-pass-ended-by-continue", files: map[string]string{"main.zn": "令次 = 0\n每当 10 / {3 - 次} > 0：\n\t次 = 次 + 1\n\t如果 次 < 5：\n\t\t继续循环\n\t令甲 = 1\n"}, accept: [][]fr{{{M, 2}}}},
+		{name: "while-cond/call-fault-after-a-pass-ended-by-continue", files: map[string]string{"main.zn": "如何查？\n\t输入数\n\t输出 10 / {3 - 数} > 0\n令次 = 0\n令子 = 1\n每当 （查：次）：\n\t次 = 次 + 1\n\t如果 真：\n\t\t继续循环\n\t令甲 = 1\n"}, accept: [][]fr{{{M, 6}, {M, 3}}}},
+		{name: "while-cond/fault-after-inner-loop-broke", files: map[string]string{"main.zn": "令次 = 0\n每当 10 / {2 - 次} > 0：\n\t次 = 次 + 1\n\t以项遍历【1，2，3】：\n\t\t如果 项 == 2：\n\t\t\t结束循环\n\t令甲 = 1\n"}, accept: [][]fr{{{M, 2}}}},
+		{name: "while-cond/in-method-after-continue", files: map[string]string{"main.zn": "如何跑？\n\t令次 = 0\n\t每当 【1，2】#{次 + 1} > 0：\n\t\t次 = 次 + 1\n\t\t继续循环\n\t输出 次\n令子 = 1\n（跑）\n"}, accept: [][]fr{{{M, 8}, {M, 3}}}},
+		{name: "iterate/fault-in-body-after-continue", files: map[string]string{"main.zn": "令和 = 0\n以项遍历【1，2，0】：\n\t如果 项 == 1：\n\t\t继续循环\n\t和 = 和 + 10 / {项 - 2}\n\t令乙 = 10 / 项\n"}, accept: [][]fr{{{M, 5}}}},
 		{name: "call-entry/arity", files: map[string]string{"main.zn": "注：a\n注：b\n如何算？\n\t输入数\n\t输出 数\n\n令子 = 1\n（算：1、2）\n"}, accept: [][]fr{{{M, 8}}, {{M, 8}, {M, 3}}, {{M, 8}, {M, 4}}}},
 		{name: "call-entry/arity-in-module", files: map[string]string{"main.zn": "导入“甲”\n令子 = 1\n令丑 = 1\n（算：1、2）\n", "甲.zn": "注：a\n注：b\n如何算？\n\t输入数\n\t输出 数\n"}, accept: [][]fr{{{M, 4}}, {{M, 4}, {"甲", 3}}, {{M, 4}, {"甲", 4}}}},
 		{name: "call-entry/constructor-arity", files: map[string]string{"main.zn": "注：a\n定义箱：\n\t其值 = 0\n如何新建箱？\n\t输入值\n\t其值 = 值\n\n令物 = （新建箱：1、2）\n"}, accept: [][]fr{{{M, 8}}, {{M, 8}, {M, 4}}, {{M, 8}, {M, 5}}}},
